@@ -450,8 +450,10 @@ func lzhuf.(*Writer).encodeChar(w, c) ()
   requires pending: PutOK(w)
   ensures inv: HuffInv(w.z)
   ensures no-error: old(w.err) == nil ==> w.err == nil
-  # ASSUMPTION (not proved, see the note at PutOK): the code of a symbol is at most 16 bits long
-  call lzhuf.(*Writer).putCode assume code-fits-16-bits: $1 <= 16
+  # the code of a symbol must fit the 16-bit code word.  KNOWN FINDING: it need not - Fibonacci-like
+  # frequencies reach depth 17 below the 0x8000 rebuild limit; the first-collected bit is then lost
+  # and the decoder, which has no such limit, decodes the sibling symbol (silent corruption)
+  call lzhuf.(*Writer).putCode requires code-fits-16-bits: $1 <= 16
   ensures pending: PutOK(w)
   loop 0 invariant node: 0 <= k && k < _R
   loop 0 invariant j: 0 <= j && j <= k + 1
